@@ -99,6 +99,9 @@ pub enum Act {
     MigrateOld { version: u8 },
     /// run `migrate` on the current (already new) layout: must be a no-op
     MigrateSame,
+    /// the marketing entry points (0: UpdateMarketing{project}, 1: UploadLogo(url), 2: UpdateMarketing{marketing: caller}):
+    /// nothing in the ledger may move
+    Marketing { by: u8, kind: u8 },
 }
 
 pub const OLD_VERSIONS: [&str; 6] = ["0.13.4", "0.12.1", "0.10.3", "0.9.1", "0.2.3", "0.13.0"];
@@ -142,6 +145,8 @@ pub struct Cfg {
     /// allowances granted (IncreaseAllowance by the owner, real entry point) before exploration starts:
     /// large tables for upgrade configurations
     pub pre_allow: Vec<(u8, u8, u128)>,
+    /// marketing admin named at instantiation (enables the "Marketing" action kind)
+    pub marketing: Option<u8>,
 }
 
 impl Cfg {
@@ -170,6 +175,7 @@ impl Cfg {
             kinds: BTreeSet::new(),
             migrate_probe: false,
             pre_allow: vec![],
+            marketing: None,
         }
     }
     /// An actor named "^X" is the same account as X spelled in upper case (bech32 allows both cases);
@@ -643,6 +649,14 @@ impl Cw20Model {
                     new_minter: new.map(|n| cfg.addr(n)),
                 },
             ),
+            Act::Marketing { by, kind } => (
+                *by,
+                match kind {
+                    0 => Cw20ExecuteMsg::UpdateMarketing { project: Some("p".into()), description: None, marketing: None },
+                    1 => Cw20ExecuteMsg::UploadLogo(cw20::Logo::Url("u".into())),
+                    _ => Cw20ExecuteMsg::UpdateMarketing { project: None, description: None, marketing: Some(cfg.addr(*by)) },
+                },
+            ),
             Act::Advance | Act::MigrateOld { .. } | Act::MigrateSame => return None,
         })
     }
@@ -663,6 +677,7 @@ fn label(a: &Act) -> &'static str {
         Act::Advance => "AdvanceBlock",
         Act::MigrateOld { .. } => "MigrateFromOldLayout",
         Act::MigrateSame => "MigrateSameVersion",
+        Act::Marketing { .. } => "Marketing",
     }
 }
 
@@ -714,7 +729,12 @@ impl Model for Cw20Model {
                 minter: cfg.addr(m),
                 cap: cap.map(Uint128::new),
             }),
-            marketing: None,
+            marketing: cfg.marketing.map(|m| cw20_base::msg::InstantiateMarketingInfo {
+                project: None,
+                description: None,
+                marketing: Some(cfg.addr(m)),
+                logo: None,
+            }),
         };
         let out = w.instantiate(vt(), &token_addr(), &mc::addr("creator"), &to_json_vec(&msg).unwrap(), &[]);
         let mut v = vec![];
@@ -896,6 +916,15 @@ impl Model for Cw20Model {
                 out.push(Act::UpdateMinter { by: b, new: None });
                 for &n in &cfg.minters {
                     out.push(Act::UpdateMinter { by: b, new: Some(n) });
+                }
+            }
+        }
+        if k("Marketing") {
+            if let Some(m) = cfg.marketing {
+                for by in [m, (m + 1) % cfg.actors.len() as u8] {
+                    for kind in 0..3u8 {
+                        out.push(Act::Marketing { by, kind });
+                    }
                 }
             }
         }
@@ -1158,6 +1187,7 @@ impl Model for Cw20Model {
                 }
                 r.minter = *new;
             }
+            Act::Marketing { .. } => {}
             Act::Advance | Act::MigrateOld { .. } | Act::MigrateSame => unreachable!(),
         }
 
